@@ -39,6 +39,11 @@ func (s *statsManager) packetSent(packet packets.Packet, clientID string) {
 	defer s.clientMu.Unlock()
 	s.getClientStats(clientID).PacketStats.add(packet, false)
 }
+
+// packetSentTotal accounts a packet in the global statistics only (its client is not known yet).
+func (s *statsManager) packetSentTotal(packet packets.Packet) {
+	s.totalStats.PacketStats.add(packet, false)
+}
 func (s *statsManager) clientPacketReceived(packet packets.Packet, clientID string) {
 	s.clientMu.Lock()
 	defer s.clientMu.Unlock()
